@@ -25,7 +25,7 @@ def run(ctx):
     D.rule_key_equality(res, "C18-R3", m)
     D.rule_early_returns(res, "C18-R5", m)
     k = D.rule_output_sources(res, "C18-R6", m)
-    res.floor("C18-R2", 8)
+    res.floor("C18-R2", 5)
     res.floor("C18-R6", 2, k)
     res.floor("C18-R1", 7)
     return res
